@@ -60,9 +60,9 @@ def _mc(tier, recs):
     import re
     parts = set()
     for h, r in recs:
-        m = re.search(r"_f(\d+)_p(\d+)(?:_a\d+)?_rq(\d+)_tq(\d+)$", h.name)
+        m = re.search(r"_f(\d+)(?:_p(\d+))?(?:_a\d+)?_rq(\d+)_tq(\d+)$", h.name)
         if m:
-            parts.add(tuple(int(x) for x in m.groups()))
+            parts.add((int(m.group(1)), int(m.group(2) or 8), int(m.group(3)), int(m.group(4))))   # interruption harnesses: up to 8 pending
     ops = len({h.entry for h, r in recs})
     # abstract list arrangements per partition up to renaming: 1 (symmetry-reduced); x choices of current fibre (nf+1) x last result (4) x pending sequences (sum nf^k, k<=pmax)
     st = 0
